@@ -229,11 +229,16 @@ def EnvReady (cp : CP) : Prop :=
   (∀ ids rest, cp.cuIn = ids :: rest → ∃ r ∈ ids, ∃ j, (cp.disp j).inFl r)
 
 theorem handleLaunch_false (cp : CP) (k : Kern) (rest : List Kern) (hd : cp.drvIn = k :: rest)
-    (i : Nat) (hi : i < cp.disps.length) (hk : (cp.disp i).kern = none) : (handleLaunch cp).2 = true := by
+    (i : Nat) (hi : i < cp.disps.length) (hk : (cp.disp i).kern = none) :
+    (handleLaunch cp).2 = true ∨ (handleLaunch cp).1.fault = some "oversize" := by
   unfold handleLaunch
   simp only [hd]
   cases hfa : findAvailable cp.disps with
-  | some j => rfl
+  | some j =>
+    simp only []
+    cases launchFits cp.pool k with
+    | true => left; rfl
+    | false => right; rfl
   | none =>
     exfalso
     unfold findAvailable at hfa
@@ -334,7 +339,12 @@ theorem no_stuck_core (cp : CP) (hdc : DCI cp) (hn : 0 < cp.disps.length) (hb : 
           have := congrArg DV.kern (hs.dv 0)
           simp only [Disp.view] at this
           rw [this]; exact hidle 0
-        have := handleLaunch_false _ k rest hd' 0 (by omega) hk0
-        rw [this] at hb2; cases hb2
+        rcases handleLaunch_false _ k rest hd' 0 (by omega) hk0 with this | this
+        · rw [this] at hb2; cases hb2
+        · -- a rejection is a fault of the tick
+          rcases handleLaunch_fault (handleLaunch (tickDispatchers (List.range cp.disps.length) cp).1).1
+            with e | e <;> rw [e] at hf
+          · rw [this] at hf; cases hf
+          · cases hf
 
 end C09
